@@ -960,6 +960,11 @@ func ModifyRegister(register *object.Register, in ast.Node) (ast.Node, bool) {
 			register.Count++
 			return register, true
 		}
+	case *ast.IndexExpression:
+		// m.name is the string key "name", not the value of the variable (the index was already replaced, children first).
+		if r, ok := in.Index.(*object.Register); ok && r == register && in.Type() == token.DOT {
+			return nil, false
+		}
 	case *ast.PostfixExpression:
 		if in.Prev.Literal() == register.Literal() {
 			// not handled currently (x--)
